@@ -259,15 +259,18 @@ package geometry
 //@ spec func bsConvex(s *baseSeries) bool { s.convex }
 //@ spec func bsClockwise(s *baseSeries) bool { s.clockwise }
 //@ spec func bsNpts(s *baseSeries) int { len(s.points) }
-//@ spec func sNpts(s Series) int { ite(isBS(s), bsNpts(s), 5) }
-//@ spec func sPt(s Series, i int) Point opaque { ite(isBS(s), bsPt(s,i), rectPt(unboxRect(s), i)) }
-//@ spec func sNseg(s Series) int { ite(isBS(s), bsNseg(s), 4) }
-//@ spec func sSeg(s Series, i int) Segment opaque { ite(isBS(s), bsSeg(s,i), rectSeg(unboxRect(s), i)) }
-//@ spec func sRect(s Series) Rect { ite(isBS(s), bsRectOf(s), unboxRect(s)) }
-//@ spec func sClosed(s Series) bool { ite(isBS(s), bsClosed(s), true) }
-//@ spec func sConvex(s Series) bool { ite(isBS(s), bsConvex(s), true) }
-//@ spec func sClockwise(s Series) bool { ite(isBS(s), bsClockwise(s), false) }
-//@ spec func SeriesInv(s Series) bool { (isBS(s) && IndexInv(s) && bsNpts(s) >= 0) || isRectS(s) }
+// a *Line handed out as Series (geojson.LineString passes &g.base to the writers): third implementer, its methods are the promoted ones of the embedded baseSeries
+//@ spec func isLnS(s Series) bool { s != nil && dyn(s) == typeid(*Line) }
+//@ spec func lnBS(s Series) *baseSeries { as(s,*Line).baseSeries }
+//@ spec func sNpts(s Series) int { ite(isBS(s), bsNpts(s), ite(isLnS(s), bsNpts(lnBS(s)), 5)) }
+//@ spec func sPt(s Series, i int) Point opaque { ite(isBS(s), bsPt(s,i), ite(isLnS(s), bsPt(lnBS(s),i), rectPt(unboxRect(s), i))) }
+//@ spec func sNseg(s Series) int { ite(isBS(s), bsNseg(s), ite(isLnS(s), bsNseg(lnBS(s)), 4)) }
+//@ spec func sSeg(s Series, i int) Segment opaque { ite(isBS(s), bsSeg(s,i), ite(isLnS(s), bsSeg(lnBS(s),i), rectSeg(unboxRect(s), i))) }
+//@ spec func sRect(s Series) Rect { ite(isBS(s), bsRectOf(s), ite(isLnS(s), bsRectOf(lnBS(s)), unboxRect(s))) }
+//@ spec func sClosed(s Series) bool { ite(isBS(s), bsClosed(s), ite(isLnS(s), bsClosed(lnBS(s)), true)) }
+//@ spec func sConvex(s Series) bool { ite(isBS(s), bsConvex(s), ite(isLnS(s), bsConvex(lnBS(s)), true)) }
+//@ spec func sClockwise(s Series) bool { ite(isBS(s), bsClockwise(s), ite(isLnS(s), bsClockwise(lnBS(s)), false)) }
+//@ spec func SeriesInv(s Series) bool { (isBS(s) && IndexInv(s) && bsNpts(s) >= 0) || (isLnS(s) && IndexInv(lnBS(s)) && bsNpts(lnBS(s)) >= 0) || isRectS(s) }
 
 //@ func Series.NumPoints
 //@   props C18 C01
@@ -720,8 +723,8 @@ package geometry
 //@   requires series != nil
 //@   ensures result == series.closed
 
-//@ spec func sValid(s Series) bool { ite(isBS(s), bsAllValid(s, bsNpts(s)), validPt(rectPt(unboxRect(s),0)) && validPt(rectPt(unboxRect(s),1)) && validPt(rectPt(unboxRect(s),2)) && validPt(rectPt(unboxRect(s),3))) }
-//@ spec func sEmpty(s Series) bool { ite(isBS(s), bsEmpty(s), false) }
+//@ spec func sValid(s Series) bool { ite(isBS(s), bsAllValid(s, bsNpts(s)), ite(isLnS(s), bsAllValid(lnBS(s), bsNpts(lnBS(s))), validPt(rectPt(unboxRect(s),0)) && validPt(rectPt(unboxRect(s),1)) && validPt(rectPt(unboxRect(s),2)) && validPt(rectPt(unboxRect(s),3)))) }
+//@ spec func sEmpty(s Series) bool { ite(isBS(s), bsEmpty(s), ite(isLnS(s), bsEmpty(lnBS(s)), false)) }
 //@ func Series.Valid
 //@   props C11
 //@   requires SeriesInv(self)
